@@ -152,11 +152,16 @@ def generate(rng, tier):
     for i in range(N):
         r = rng.random()
         sch, npaths, cut = _params(rng)
+        # a quarter of the exact graphs are scaled by 2^-30 (about 1e-9: the scale of real net fluxes);
+        # scaling by a power of two keeps every float operation exact, so results must scale exactly
+        sc = F(1, 2 ** 30) if rng.random() < 0.25 else F(1)
         if r < 0.40:
             n, M, src, snk = _conserved(rng)
+            M = [[x * sc for x in row] for row in M]
             cases.append(_mk("conserved", n, M, src, snk, sch, npaths, cut))
         elif r < 0.85:
             n, M, src, snk = _digraph(rng)
+            M = [[x * sc for x in row] for row in M]
             cases.append(_mk("digraph", n, M, src, snk, sch, npaths, cut))
         elif r < 0.93:
             n, M, src, snk = _float_flux(rng)
